@@ -8,6 +8,13 @@ COMMON_TRUSTED = [
 ]
 
 CONF = {
+    "C15": {
+        "n": {"quick": 400, "thorough": 4000},
+        "shard": 200,
+        "obligations": ["CloneObligations.v"],
+        "trusted_base": ["the translator harness/translator (go/ast walk over /repo/pipeline/*.go): regenerates coq/gen/CloneTable.v on every run; cross-checked on every run by the reflection harness (clone_v over the generated table vs the real CloneWith)", "text/template for the single template {{ .x }}"],
+        "assumptions": ["loop-bodied CloneWith methods (OpSpec, ChildActions) are classified FEach by the translator; their agreement with the code rests on the reflection harness"],
+    },
     "C13": {
         "n": {"quick": 800, "thorough": 10000},
         "shard": 400,
@@ -21,6 +28,7 @@ CONF = {
         "assumptions": ["loop variables / argument paths do not shadow existing data (shadowing is the user's doing, not the mechanism disturbing other data)", "container queries iterate in unspecified order: checked on the Go side as a set"],
     },
     "C12": {
+        "obligations": ["OpOrderObligations.v"],
         "n": {"quick": 600, "thorough": 9000},
         "shard": 300,
         "trusted_base": ["text/template + sprig: the model covers a tiny template language (literal text, {{ .key }}, constant / eq / lt conditions); yaml.v3 decoding of action trees"],
